@@ -48,3 +48,39 @@ Proof.
   destruct (field_eqb g f) eqn:E2; [|reflexivity].
   apply field_eqb_eq in E2. subst g. apply mem_field_In in Hg. congruence.
 Qed.
+
+(* ---- C19: which of the listed options reach the key *)
+Lemma key_covers_false_witness kf want :
+  key_covers kf want = false -> exists f, In f want /\ mem_field f kf = false.
+Proof.
+  unfold key_covers. induction want as [|f r IH]; cbn [forallb]; [discriminate|].
+  destruct (mem_field f kf) eqn:E; cbn [andb].
+  - intros Hr. destruct (IH Hr) as (g & Hg & Hm). exists g. split; [now right|assumption].
+  - intros _. exists f. split; [now left|assumption].
+Qed.
+
+Lemma c19_no_filePath : ~ In F_filePath c19_options.
+Proof. cbn. intuition discriminate. Qed.
+
+(* for the key of the current source: either every option of the list is
+   streamed into toolinfo, or some listed option can be changed arbitrarily
+   without changing the key data of any unit *)
+Definition coverage_status (kf : list field) : Prop :=
+  if key_covers kf c19_options
+  then missing_fields kf c19_options = []
+  else exists f, In f c19_options /\ mem_field f kf = false.
+
+Lemma coverage_status_all kf : coverage_status kf.
+Proof.
+  unfold coverage_status. destruct (key_covers kf c19_options) eqn:E.
+  - apply key_covers_no_missing. exact E.
+  - apply key_covers_false_witness. exact E.
+Qed.
+
+Lemma missing_option_invisible f v o u :
+  In f (missing_fields key_fields c19_options) ->
+  code_keydata (flip_field f v o) u = code_keydata o u.
+Proof.
+  intros Hin. apply missing_fields_spec in Hin as [Hw Hm].
+  apply code_keydata_option_blind; [exact Hm|]. intros ->. exact (c19_no_filePath Hw).
+Qed.
